@@ -2,7 +2,7 @@
    Statements only; proofs in Lemmas/EnumLemmas.v (generic, any table) and Lemmas/EnumTables.v (generated tables). *)
 From Coq Require Import ZArith List Bool.
 From Coq.Strings Require Import Byte.
-From CP Require Import Core.Bytes Core.Result Prim.Int Base.Enum Lemmas.IntLemmas Lemmas.EnumLemmas Lemmas.EnumTables.
+From CP Require Import Core.Bytes Core.Result Prim.Int Base.Enum Lemmas.IntLemmas Lemmas.EnumLemmas Lemmas.EnumTables Lemmas.AliasTables.
 From CPGen Require Import Tables.
 Open Scope Z_scope.
 
